@@ -13,6 +13,11 @@ notes = {
  "C08-r5-mut2": "changes stack depth only (values and order unchanged): C17's clause, written against C08 by the sub-agent",
  "C16-r3-mut2": "miscompiles break/continue after a closure (C01/C13's clause); C16's check does not claim 'tests pass afterwards'",
  "C01-r6-mut2": "lost shadowing of a tuple-valued `:=` loop/switch header (C03's clause: the sub-agent flagged it as a scoping change itself)",
+ "C03-r7-mut2": "`k, v = range` split into two sequential assignments: evaluation order of the left-hand sides of an `=` range clause (C04's clause, RW.TMPL.RANGE.TUPLE; the sub-agent rates the fit to C03 as moderate itself)",
+ "C05-r7-mut1": "generator declarations remembered by name: a same-named plain method is rewritten into an empty generator (C12 'wrong signature' / C13 'bystander' clauses; the sub-agent calls the fit to C05 weak: the delegation itself is faithful)",
+ "C05-r7-mut2": "break after a delegation in a yielding switch is no longer retargeted (C01's break/continue clause: RW.SCOPEAGREE)",
+ "C09-r7-mut2": "Bind memoises its resumption per Seq value: only one Seq value *started twice* misbehaves (re-startability of terms: C07/C14's clause; the sub-agent notes that a history checker rebuilding the Seq per history sees nothing)",
+ "C18-r7-mut2": "switch breaks rewritten after the clause bodies were lowered: control is misrouted and the panic of the skipped statement never happens (C01's break clause; the sub-agent flags it as off-target for C18 itself)",
  "C03-r6-mut1": "eta reduction of pointer-receiver method values changes when the receiver is evaluated (C13's clause 'time of evaluation of callee and receiver'; also caught by C02/C06/C07/C14/C18)",
 }
 out = ["# Which checks catch which seeded change", "",
